@@ -356,7 +356,9 @@ class DictDecoder:
             # field can support any object return the value as it is
             return value
 
-        if collections.is_array(value) and any(val is None for val in value):
+        if collections.is_array(value) and any(
+            val is None or collections.is_array(val) for val in value
+        ):
             raise ParserError(
                 f"Failed to bind '{value}' "
                 f"to {meta.clazz.__qualname__}.{var.name} field"
